@@ -5,13 +5,14 @@ name="$1"; dir="${2:-$1}"
 wt=/tmp/mut/$name; out=/tmp/mut_out/$name
 cd "$wt" || exit 2
 export PYTHONPATH=$wt PYTHONDONTWRITEBYTECODE=1 MPLBACKEND=Agg
-git diff > /tmp/mut_out/$name/patch.check.diff
+# do not trust the worktree state (git stash is shared between worktrees): rebuild it from patch.diff
+git checkout -q -- . && git apply $out/patch.diff || { echo "REJECT: patch.diff does not apply to HEAD"; exit 1; }
 t=$(/venv/bin/python -m pytest -q -p no:cacheprovider pytest 2>&1 | tail -1)
 echo "tests with mutation: $t"
 /venv/bin/python $out/demo.py >/dev/null 2>&1; m=$?
-git stash -q
+git apply -R $out/patch.diff
 /venv/bin/python $out/demo.py >/dev/null 2>&1; o=$?
-git stash pop -q
+git apply $out/patch.diff
 echo "demo exit: original=$o mutated=$m"
 case "$t" in *"33 passed"*) ;; *) echo "REJECT: tests"; exit 1;; esac
 if [ $o -ne 0 ] || [ $m -eq 0 ]; then echo "REJECT: demo"; exit 1; fi
